@@ -8,7 +8,7 @@
 (*                                                                             *)
 (* Row formats: see harness/half/driver.cpp.  Row 1 is the header with the     *)
 (* column operands S (binary functions) and E (exponents for ldexp).           *)
-EXTENDS Half, Json, IOUtils
+EXTENDS HalfTrans, Json, IOUtils
 
 VARIABLES l, j
 
@@ -17,6 +17,7 @@ Hdr == Tab[1]
 
 Width(row) ==
     CASE row.k = "un"  -> row.n
+      [] row.k = "ux"  -> Len(row.x)
       [] row.k = "bin" -> Len(Hdr.S)
       [] row.k = "nt"  -> Len(Hdr.S)
       [] row.k = "ld"  -> Len(Hdr.E)
@@ -69,9 +70,16 @@ C08Unary == {"neg", "pos", "fabs", "abs", "sqrt", "isnan", "isinf", "isfinite", 
 TransUnary == {"exp", "exp2", "expm1", "log", "log10", "log2", "log1p", "cbrt", "sin", "cos", "tan", "asin", "acos", "atan",
                "sinh", "cosh", "tanh", "asinh", "acosh", "atanh", "erf", "erfc", "lgamma", "tgamma"}
 
+(* a row that carries "cr" is judged against the enclosure of the real function (HalfTrans.tla): correct rounding  *)
+(* for the functions documented as exact to rounding, one ulp for expm1 and log1p                                 *)
+IsCR(row) == "cr" \in DOMAIN row
+RealFunctions == CRFunctions \cup Ulp1Functions
+
+UnaryArg(row, c) == IF row.k = "ux" THEN row.x[c] ELSE row.base + c - 1
+
 UnaryOK(row, c) ==
     LET f == row.f
-        h == row.base + c - 1
+        h == UnaryArg(row, c)
         r == row.r[c]
     IN
     CASE f = "neg"   -> r = Neg(h)
@@ -130,8 +138,9 @@ UnaryOK(row, c) ==
       [] f = "stream" -> LET t == ToFloat(h) IN
                       /\ (IF IsNaN(h) THEN IsNaN32(r, row.r2[c]) ELSE r = F32Hi(t) /\ row.r2[c] = F32Lo(t))
                       /\ (IsFinite(h) => row.r4[c] = 1 /\ row.r3[c] = h)
-      [] f = "sincos" -> MeetsSpecial(Special1("sin", h), r) /\ MeetsSpecial(Special1("cos", h), row.r2[c])
-      [] f \in TransUnary -> MeetsSpecial(Special1(f, h), r)
+      [] f = "sincos" -> IF IsCR(row) THEN MeetsReal("sin", h, r) /\ MeetsReal("cos", h, row.r2[c])
+                         ELSE MeetsSpecial(Special1("sin", h), r) /\ MeetsSpecial(Special1("cos", h), row.r2[c])
+      [] f \in TransUnary -> IF IsCR(row) /\ f \in RealFunctions THEN MeetsReal(f, h, r) ELSE MeetsSpecial(Special1(f, h), r)
       [] OTHER -> FALSE
 
 (* ----------------------------------------------------------------- binary *)
@@ -240,6 +249,7 @@ TypeMin(t) == IF t = 0 THEN FromInt(-128) ELSE IF t = 1 THEN FromInt(-32768) ELS
 Conforms ==
     LET row == Tab[l] IN
     CASE row.k = "un"  -> UnaryOK(row, j)
+      [] row.k = "ux"  -> UnaryOK(row, j)
       [] row.k = "bin" -> BinaryOK(row, j)
       [] row.k = "ld"  -> SameH(row.r[j], Ldexp(row.a, Hdr.E[j]))
       [] row.k = "nt"  -> /\ SameValue(row.r[j],  NextToward(row.a, Hdr.S[j], -1))
@@ -265,6 +275,7 @@ Conforms ==
 Operands ==
     LET row == Tab[l] IN
     CASE row.k = "un"  -> << row.base + j - 1 >>
+      [] row.k = "ux"  -> << row.x[j] >>
       [] row.k = "bin" -> << row.a, Hdr.S[j] >>
       [] row.k = "nt"  -> << row.a, Hdr.S[j] >>
       [] row.k = "ld"  -> << row.a, Hdr.E[j] >>
@@ -282,9 +293,11 @@ Operands ==
 (* the specified value of the first result, where the specification is a value *)
 Expected ==
     LET row == Tab[l]  f == row.f IN
-    CASE row.k = "un" ->
-           LET h == row.base + j - 1 IN
-           ( CASE f = "sqrt" -> << Sqrt(h) >> [] f = "ceil" -> << Ceil(h) >> [] f = "floor" -> << Floor(h) >>
+    CASE row.k \in {"un", "ux"} ->
+           LET h == UnaryArg(row, j) IN
+           ( CASE IsCR(row) /\ f \in RealFunctions -> << ExpectedReal(f, h) >>
+               [] IsCR(row) /\ f = "sincos" -> << ExpectedReal("sin", h), ExpectedReal("cos", h) >>
+               [] f = "sqrt" -> << Sqrt(h) >> [] f = "ceil" -> << Ceil(h) >> [] f = "floor" -> << Floor(h) >>
                [] f = "trunc" -> << Trunc(h) >> [] f = "round" -> << Round(h) >> [] f \in {"rint", "nearbyint"} -> << Rint(h) >>
                [] f \in {"lround", "llround"} -> << IF IsFinite(h) THEN IntVal(h, "round") ELSE "unspecified" >>
                [] f \in {"lrint", "llrint"} -> << IF IsFinite(h) THEN IntVal(h, "even") ELSE "unspecified" >>
